@@ -133,9 +133,9 @@ def step (s : St) (args : List String) (impl : String) : St × Out :=
             if (alookup li nd'.main.indexes).map (·.id) == some h.id then none else some (n, li, h.remoteIndex))
           let s' : St := { w := w', retry := s.retry.set n r2, removed := s.removed ++ gone,
                            tainted := ((s.tainted.filter (fun (m, a) => m != n ||
-                                (nd'.p.vpnIps.any (·.1 == a) && nd'.p.wheel.slots.flatten.count a > 0))) ++
+                                (nd'.p.vpnIps.any (·.1 == a) && (nd'.p.wheel.slots.flatten.filter (·.1 == a)).length > 0))) ++
                               (nd'.p.vpnIps.map (·.1)).filterMap (fun a =>
-                              if nd'.p.wheel.slots.flatten.count a > 1 then some (n, a) else none)).eraseDups }
+                              if (nd'.p.wheel.slots.flatten.filter (·.1 == a)).length > 1 then some (n, a) else none)).eraseDups }
           -- property oracles on the implementation's answer
           let secs := sectionsOf impl
           let preDump := sectionsOf (dumpNode pre nd)
@@ -149,7 +149,7 @@ def step (s : St) (args : List String) (impl : String) : St × Out :=
           let v09 := HsManager.c09 ctx kind
           let v10 := HsManager.c10 ctx kind (fun h => (w'.pidOf h).getD 0)
           let tainted := (nd.p.vpnIps.map (·.1) ++ nd'.p.vpnIps.map (·.1)).filter (fun a =>
-            (nd.p.wheel.slots.flatten.count a > 1) || (nd'.p.wheel.slots.flatten.count a > 1) ||
+            ((nd.p.wheel.slots.flatten.filter (·.1 == a)).length > 1) || ((nd'.p.wheel.slots.flatten.filter (·.1 == a)).length > 1) ||
             s.tainted.contains (n, a))
           let v32 := HsManager.c32 ctx kind nd.cfg (match op with | .tick _ => some r1view | .trig .. => some r1view | _ => none) tainted
           let swapAllowed : Option Bool := match pre.resolve op with
